@@ -238,21 +238,22 @@ def _row_consistency(col, rule="C15.R4"):
         ev, v = kn[0]
         arg = ev.node.args[0]
         nodes = _value_nodes(sx, arg, ev.nid)
-        okk = v == S.mcall(S.SELF, "_extract_knob_values") and all(cfg.dominates(setk[0][0].nid, n) for n in nodes)
+        okk = v in c09.KNOBS_ALTS and all(cfg.dominates(setk[0][0].nid, n) for n in nodes)
     col.add(rule, f"{q}#knobs-read-after-they-were-set", okk, sx.loc(kn[0][0]) if kn else sx.loc(sx.fn),
             "the knob vector logged is read from the containers after set_knobs_from_x", "")
     # ---- add_point_to_log
     sx = octx(repo, "Optimize", "add_point_to_log")
     cfg = sx.cfg
     ap = _appends(sx)
-    KN = S.mcall(S.SELF, "_extract_knob_values")
+    KN = c09.KNOBS
     evs = sx.calls_some(S.mcall(SOLVER, "eval", S.V("x")))
     ok = len(evs) == 1 and all(cfg.dominates(evs[0][0].nid, e.nid) for k in ("targets", "tol_met", "penalty") for e, v in ap.get(k, []))
     col.add(rule, "Optimize.add_point_to_log#evaluate-before-reading-results", ok, sx.loc(evs[0][0]) if evs else sx.loc(sx.fn),
             "the point is evaluated before its target values, tolerance flags and penalty are logged", "")
     if evs:
         ev, m = evs[0]
-        okx = m["x"] == S.mcall(ERR, "_knobs_to_x", KN) and len(ap.get("knobs", [])) == 1 and ap["knobs"][0][1] == KN
+        okx = any(m["x"] == S.mcall(ERR, "_knobs_to_x", kn) and len(ap.get("knobs", [])) == 1 and ap["knobs"][0][1] == kn
+                  for kn in c09.KNOBS_ALTS)
         col.add(rule, "Optimize.add_point_to_log#evaluates-current-knobs", okx, sx.loc(ev),
                 "the point evaluated is the knob vector that is logged", S.show(m["x"]))
         pn = ap.get("penalty", [])
